@@ -24,7 +24,7 @@ func init() { Families["seq"] = seqScenario }
 
 var catProp = map[string][]string{
 	"lost": {"C01"}, "phantom": {"C02"}, "zero-op": {"C02"}, "order": {"C03"}, "name": {"C08", "C01", "C02"}, "from": {"C11"},
-	"watchlist": {"C04"}, "errclass": {"C04"}, "state-changed": {"C04"}, "tables": {"C12"}, "marks": {"C12", "C04"}, "livelock": {"C01", "C10", "C05"},
+	"watchlist": {"C04"}, "errclass": {"C04"}, "state-changed": {"C04"}, "tables": {"C12"}, "marks": {"C12", "C04"}, "unwatched": {"C12", "C04", "C01"}, "subscription": {"C15"}, "livelock": {"C01", "C10", "C05"},
 	"errors-chan": {"C10"}, "overflow": {"C10", "C01"}, "stuck": {"C05"}, "panic": {"C04", "C07"},
 	"capacity": {"C14"}, "absorb": {"C14"}, "postclose": {"C06", "C14"}, "foreign": {"C14"},
 }
@@ -88,6 +88,7 @@ func seqScenario(p map[string]any) *Scenario {
 	noq := pint(p, "noq", 0)
 	tag09 := pstr(p, "tag09", "") == "true"
 	tag14 := pstr(p, "tag14", "") == "true"
+	tag15 := pstr(p, "tag15", "") == "true" // watches with explicit operation sets: a record that is not turned into its operation is C15's business
 	sc := &Scenario{LivelockIsVerdict: true, Name: fmt.Sprintf("seq/%s/%s", fix, strings.Join(append(append([]string{}, initOps...), ops...), ";")), Params: p}
 	if len(sc.Name) > 150 {
 		sc.Name = sc.Name[:150]
@@ -263,6 +264,9 @@ func seqScenario(p map[string]any) *Scenario {
 			props := catProp[pr.Cat]
 			if tag14 && (pr.Cat == "lost" || pr.Cat == "phantom" || pr.Cat == "order" || pr.Cat == "name" || pr.Cat == "from") {
 				props = append(append([]string{}, props...), "C14")
+			}
+			if tag15 && (pr.Cat == "lost" || pr.Cat == "phantom") {
+				props = append(append([]string{}, props...), "C15")
 			}
 			if tag09 && (pr.Cat == "watchlist" || pr.Cat == "errclass" || pr.Cat == "phantom" || pr.Cat == "lost") {
 				props = append(append([]string{}, props...), "C09")
